@@ -41,6 +41,37 @@ mod verif_dom_entry {
         Err(p.error(ErrorCode::InvalidJsonValue))
     }
 
+    /// the success outcomes of the in-place parser that matter here: an unterminated string is only stopped by the quote
+    /// of the `x"x` padding, so the parser can return Ok with the reader one or two bytes PAST the end of the input
+    fn parse_dom_past_end_model<'de, R: Reader<'de>, V: JsonVisitor<'de>>(p: &mut Parser<R>, _vis: &mut V) -> Result<()> {
+        let len = p.read.as_u8_slice().len();
+        let idx: usize = kani::any();
+        kani::assume(len < idx && idx <= len + 2);
+        p.read.set_index(idx);
+        Ok(())
+    }
+
+    /// (found F24) such an outcome must be turned into an error: the returned offset is what the caller advances its
+    /// own reader by, and nothing after parse_with_padding checks it on the Deserializer::deserialize / stream paths
+    fn dom_entry_past_end_case<const N: usize>() {
+        let buf: [u8; N] = kani::any();
+        let json = &buf[..];
+        let cfg = DeserializeCfg { use_rawnumber: kani::any(), utf8_lossy: kani::any() };
+        let mut v = Value::new();
+        match v.parse_with_padding(json, cfg) {
+            Ok(_) => assert!(false),
+            Err(e) => { assert!(e.offset() <= N); std::mem::forget(e); }
+        }
+        std::mem::forget(v);
+    }
+
+    #[kani::proof]
+    #[kani::unwind(8)]
+    #[kani::stub(crate::parser::Parser::<R>::parse_dom, parse_dom_past_end_model)]
+    #[kani::stub(crate::error::Error::syntax, syntax_model)]
+    #[kani::stub(crate::value::tls_buffer::TlsBuf::with_capacity, crate::value::tls_buffer::verif_tls_model::with_capacity_heap)]
+    fn dom_entry_past_end_is_error() { dom_entry_past_end_case::<2>(); }
+
     /// One input length N, all byte contents, both configuration flags.
     fn dom_entry_case<const N: usize>() {
         let buf: [u8; N] = kani::any();
